@@ -48,7 +48,7 @@ theorem fx_not_vacuous :
     ((XmppVerif.Gen.Fx.all.lookup "Client.sendAndStore").any fun f =>
       f.mentions (.lock queueCls) && f.mentions .store && f.mentions .write) = true ∧
     ((XmppVerif.Gen.Fx.all.lookup "Router.route").any fun f =>
-      f.mentions (.lock "Router.IQResultRouteLock") && f.mentions (.call "delete") && f.mentions (.chsend "route.result")) = true ∧
+      f.mentions (.lock "Router.IQResultRouteLock") && f.mentions (.call "delete") && f.mentions (.chsend "IQResultRoute.result")) = true ∧
     ((XmppVerif.Gen.Fx.all.lookup "SendMissingStz").any fun f => f.mentions (.lock queueCls)) = true := by decide
 
 end XmppVerif.Tie.Fx
